@@ -22,6 +22,8 @@ def configs(tier):
         add(spec('sequence', 'rleja', 2, 1, 1), 'A,A'); add(spec('sequence', 'leja', 2, 1, 2), 'Sg,U,X,A', 0, max_paths=24); add(spec('sequence', 'min-delta', 2, 1, 1), 'K', 1)
         add(spec('localp', 'localp', 2, 1, 1, order=1), 'Sc,Sf'); add(spec('localp', 'semi-localp', 2, 1, 1, order=2), 'Ss,Sc', 1); add(spec('localp', 'localp-zero', 2, 1, 1, order=1), 'K')
         add(spec('global', 'clenshaw-curtis', 2, 1, 1), 'A^!,Udv'); add(spec('sequence', 'rleja', 2, 1, 1), 'A^!,Uv'); add(spec('fourier', 'fourier', 2, 1, 1), 'A^!,Udv'); add(spec('localp', 'localp', 2, 1, 1, order=1), 'Sc^!,Sfv')
+        # other selection types: the limits test sits in three different selection routines (lower set / general set / full tensor)
+        add(spec('global', 'clenshaw-curtis', 2, 1, 3, 'ipcurved', aniso=2), 'Ud'); add(spec('global', 'leja', 2, 1, 2, 'qptotal', aniso=1), 'U'); add(spec('sequence', 'rleja', 2, 1, 2, 'iphyperbolic'), 'U'); add(spec('global', 'clenshaw-curtis', 2, 1, 2, 'tensor'), 'Ud')
         add(spec('wavelet', 'wavelet', 2, 1, 1, order=1), 'Sc'); add(spec('fourier', 'fourier', 2, 1, 1), 'A', 0); add(spec('fourier', 'fourier', 2, 1, 1), 'K', 1)
     else:
         for rule in ('clenshaw-curtis', 'fejer2', 'rleja', 'leja', 'rleja-odd', 'min-delta', 'gauss-patterson', 'rleja-double2'):
@@ -30,6 +32,11 @@ def configs(tier):
             for ops in ('A^!,Udv', 'A^!,Uv', 'U^!,Udv', 'A^!,Av', 'A^!,Ud', 'A^,Udv,A'):
                 if rule in ('gauss-legendre', 'chebyshev') and 'A' in ops: continue
                 add(spec('global', rule, 2, 1, 1), ops, 0, max_paths=80)
+        for t in DEPTH_TYPES:
+            for an in ((0, 1, 2) if 'curved' in t else (0, 1)):
+                add(spec('global', 'clenshaw-curtis', 2, 1, 3 if 'tensor' not in t else 2, t, aniso=an), 'Ud,U', 0, max_paths=80); add(spec('sequence', 'rleja', 2, 1, 2, t, aniso=an), 'U', 0, max_paths=80)
+                add(spec('global', 'leja', 2, 1, 2, t, aniso=an), 'U,A', 1, max_paths=80)
+            add(spec('fourier', 'fourier', 2, 1, 2 if 'tensor' not in t else 1, t), 'Ud,U', 0, max_paths=60)
         for rule in ('leja', 'rleja'):
             add(spec('global', rule, 2, 1, 1), 'Sg^!,Udv', 0, max_paths=80); add(spec('sequence', rule, 2, 1, 1), 'Sg^!,Udv', 0, max_paths=80)
             for ops in ('A^!,Udv', 'A^!,Uv', 'U^!,Udv', 'A^!,Av', 'A^,Udv,A'): add(spec('sequence', rule, 2, 1, 1), ops, 0, max_paths=80)
